@@ -1,3 +1,4 @@
 import Iodata.Props.C10
 import Iodata.Props.C08
 import Iodata.Props.C07
+import Iodata.Props.C18
